@@ -120,6 +120,10 @@ def unit_addcontact(tier, ncon):
     co = S.w.obj('con', S.csz).zeros()
     num0 = S.D.sym('warning[%d].number' % K['mjWARN_CONTACTFULL'], 'wnum')
     S.pre += [num0 >= 0, num0 < 1000]
+    # constraint arrays of an earlier mj_makeConstraint may still be live: they must be invalidated whether or not the contact fits
+    nefc0 = S.D.sym('nefc', 'nefc0'); S.pre += [nefc0 >= 0, nefc0 <= 5]
+    live = [name for (_, name, _, _, _) in xmacro('MJDATA_ARENA_POINTERS_SOLVER')]
+    for name in live: S.D.o.put(S.D.off(name), 'ptr', (S.arena, 0))
     ex = llsym.Exec(mod(), stubs=STUBS, loop_bound=8)
     st = S.state(ex)
     args = [('ptr', (S.M.o, 0)), ('ptr', (S.D.o, 0)), ('ptr', (co, 0))]
@@ -137,7 +141,10 @@ def unit_addcontact(tier, ncon):
         ck.prove('addContact: returns 1 with a CONTACTFULL warning and ncon unchanged iff the contact does not fit; else 0 and ncon+1', pc,
                  z3.If(fits, z3.And(r.value == 0, nc == ncon + 1, pa == p0 + S.csz, wn == num0), z3.And(r.value == 1, nc == ncon, pa == p0, wn == num0 + 1)),
                  site='mj_addContact:outcome', decode=S.dec(), replay=rp)
-        ck.prove('addContact: constraint arrays invalidated (nefc = 0)', pc, ne == 0, site='mj_addContact:clearEfc', decode=S.dec(), replay=rp)
+        ptrs = [S.D.load(ex, r.state, name) for name in live]
+        allnull = all(isinstance(p_, llsym.Ptr) and p_.obj == 0 for p_ in ptrs)
+        ck.prove('addContact: constraint arrays of an earlier step are invalidated (nefc = 0, efc pointers NULL) on success and on failure', pc, z3.And(ne == 0, z3.BoolVal(allnull)), site='mj_addContact:clearEfc', decode=S.dec(),
+                 replay=W.make_replay(so(TU), 'mj_addContact', S.w, args, restype='i32', ret_term=r.value, outputs=outs + [S.D.out(ex, r.state, 'nefc')]))
         ck.prove('addContact: arena top stays below the stack', pc, z3.ULE(pa, S.narena - S.pstack), site='mj_addContact:bounds', decode=S.dec(), replay=rp)
     ck.reach('contact does not fit', S.pre + [z3.Not(fits)])
     ck.memory_obligations(res, decode=S.dec(), replay=W.make_asan_replay(lambda: so_asan(TU), [('mj_addContact', args, 'i32')], S.w))
